@@ -125,10 +125,27 @@ impl SymbolsExportsModule {
         name: &String,
         files: &mut R,
     ) -> Option<Rc<SymbolExport>> {
+        self.get_value_following(name, files, &mut vec![])
+    }
+
+    /// `following` holds the `export *` targets already being searched, so that modules that
+    /// re-export each other (or themselves) do not recurse forever.
+    fn get_value_following<R: FileManager>(
+        &self,
+        name: &String,
+        files: &mut R,
+        following: &mut Vec<BffFileName>,
+    ) -> Option<Rc<SymbolExport>> {
         let known = self.named_values.get(name).cloned().or_else(|| {
             for it in &self.extends {
+                if following.contains(it) {
+                    continue;
+                }
+                following.push(it.clone());
                 let file = files.get_or_fetch_file(it)?;
-                let res = file.symbol_exports.get_value(name, files);
+                let res = file
+                    .symbol_exports
+                    .get_value_following(name, files, following);
                 if let Some(it) = res {
                     return Some(it.clone());
                 }
@@ -160,10 +177,25 @@ impl SymbolsExportsModule {
         name: &String,
         files: &mut R,
     ) -> Option<Rc<SymbolExport>> {
+        self.get_type_following(name, files, &mut vec![])
+    }
+
+    fn get_type_following<R: FileManager>(
+        &self,
+        name: &String,
+        files: &mut R,
+        following: &mut Vec<BffFileName>,
+    ) -> Option<Rc<SymbolExport>> {
         let known = self.named_types.get(name).cloned().or_else(|| {
             for it in &self.extends {
+                if following.contains(it) {
+                    continue;
+                }
+                following.push(it.clone());
                 let file = files.get_or_fetch_file(it)?;
-                let res = file.symbol_exports.get_type(name, files);
+                let res = file
+                    .symbol_exports
+                    .get_type_following(name, files, following);
                 if let Some(it) = res {
                     return Some(it.clone());
                 }
